@@ -1,0 +1,21 @@
+//go:build verif
+// +build verif
+
+package bfe_http
+
+import "io"
+
+// Verif hooks for property C23 (chunked transfer coding), used only by the out-of-tree
+// verification harness (build tag verif).
+
+// VerifNewChunkedReader exposes newChunkedReader.
+func VerifNewChunkedReader(r io.Reader) io.Reader { return newChunkedReader(r) }
+
+// VerifNewChunkedWriter exposes newChunkedWriter.
+func VerifNewChunkedWriter(w io.Writer) io.WriteCloser { return newChunkedWriter(w) }
+
+// VerifParseHexUint exposes parseHexUint.
+func VerifParseHexUint(v []byte) (uint64, error) { return parseHexUint(v) }
+
+// VerifMaxLineLength exposes maxLineLength.
+const VerifMaxLineLength = maxLineLength
